@@ -29,19 +29,50 @@ class HostModel:
     """marker: objects of these classes are operated on directly by the evaluator (methods, attributes, items)"""
 
 
-class Text(HostModel):
-    def __init__(self, s):
-        self.s = s
-        self.parent = None
+class Text(str, HostModel):
+    """NavigableString: a str that knows its parent (and may be given attributes, e.g. layout_info)"""
+    parent = None
 
-    def __eq__(self, other):
-        return isinstance(other, Text) and other.s == self.s or isinstance(other, str) and other == self.s
+    def __new__(cls, s=""):
+        return str.__new__(cls, s)
 
-    def __hash__(self):
-        return hash(self.s)
+    @property
+    def s(self):
+        return str(self)
 
-    def __str__(self):
-        return self.s
+    @property
+    def string(self):
+        return self
+
+    def get_text(self, *a, **k):
+        return str(self)
+
+    @property
+    def text(self):
+        return str(self)
+
+    @property
+    def parents(self):
+        out, p = [], self.parent
+        while p is not None:
+            out.append(p)
+            p = p.parent
+        return out
+
+    def __deepcopy__(self, memo):
+        return type(self)(str(self))
+
+
+class Comment(Text):
+    pass
+
+
+class CData(Text):
+    pass
+
+
+class Declaration(Text):
+    pass
 
 
 class Tag(HostModel):
@@ -139,7 +170,7 @@ class Tag(HostModel):
     def string(self):
         if len(self.contents) == 1:
             c = self.contents[0]
-            return c.s if isinstance(c, Text) else c.string
+            return c if isinstance(c, Text) else c.string
         return None
 
     @string.setter
@@ -150,7 +181,7 @@ class Tag(HostModel):
         self._adopt(Text(s))
 
     def _adopt(self, node, index=None):
-        if isinstance(node, str):
+        if isinstance(node, str) and not isinstance(node, Text):
             node = Text(node)
         if not isinstance(node, (Tag, Text)):
             raise ModelError(f"cannot insert {type(node).__name__} into a tag")
@@ -212,7 +243,8 @@ class Tag(HostModel):
         return out
 
     def get_text(self, *a, **k):
-        return "".join(c.s if isinstance(c, Text) else c.get_text() for c in self.contents)
+        return "".join(("" if isinstance(c, (Comment, Declaration)) else str(c)) if isinstance(c, Text) else c.get_text()
+                       for c in self.contents)
 
     @property
     def text(self):
@@ -251,7 +283,7 @@ class Tag(HostModel):
         out.append(f"{pad}{self._open()}>")
         for c in self.contents:
             if isinstance(c, Text):
-                t = c.s.strip()
+                t = str(c).strip()
                 if t:
                     out.append(f"{' ' * (depth + 1)}{t}")
             else:
@@ -273,7 +305,7 @@ class Tag(HostModel):
     def _flat(self):
         if not self.contents:
             return f"{self._open()}/>"
-        return f"{self._open()}>" + "".join(c.s if isinstance(c, Text) else c._flat() for c in self.contents) + f"</{self.name}>"
+        return f"{self._open()}>" + "".join(str(c) if isinstance(c, Text) else c._flat() for c in self.contents) + f"</{self.name}>"
 
     def __str__(self):
         return self._flat()
@@ -285,16 +317,21 @@ class Tag(HostModel):
 class Soup(Tag):
     """BeautifulSoup(markup, "lxml-xml") for the writers' own well-formed skeleton"""
 
-    def __init__(self, markup="", features=None, **kw):
+    def __init__(self, markup="", features=None, builder=None, parse_only=None, from_encoding=None, **kw):
+        if builder is not None or parse_only is not None or from_encoding is not None or kw:
+            raise ModelError("BeautifulSoup(builder= / parse_only= / from_encoding= / other options) is outside the model")
         super().__init__("[document]", {}, None)
         self._soup = self
         self.features = features
-        if features not in ("lxml-xml", "xml"):
-            raise ModelError(f"BeautifulSoup(..., {features!r}) is outside the model (only the XML tree builder)")
         if not isinstance(markup, str):
             raise ModelError("BeautifulSoup(<non string>)")
-        if markup.strip():
-            self._parse(markup)
+        if features in ("lxml-xml", "xml"):
+            if markup.strip():
+                self._parse(markup)
+        elif features == "html.parser":
+            _HtmlBuilder(self).run(markup)
+        else:
+            raise ModelError(f"BeautifulSoup(..., {features!r}) is outside the model (XML tree builder and html.parser only)")
 
     def _parse(self, markup):
         ns = dict(re.findall(r'xmlns:(\w+)="([^"]*)"', markup))
@@ -352,3 +389,129 @@ class Soup(Tag):
 
     def __repr__(self):
         return "<model soup>"
+
+
+# ------------------------------------------------------------------------------------------------------------------
+# BeautifulSoup(markup, "html.parser"): the stdlib tokenizer (the one bs4 itself drives) + bs4's tree building rules
+# (bs4/builder/_htmlparser.py, bs4/__init__.py: empty-element tags close at once, an end tag pops to the most recent open
+# tag of that name or is ignored, runs of ASCII white space collapse to one blank or newline outside pre/textarea,
+# unknown named references stay as "&name", numeric references become the character).
+import html.entities
+import html.parser
+
+_EMPTY = {"area", "base", "br", "col", "embed", "hr", "img", "input", "keygen", "link", "menuitem", "meta", "param", "source",
+          "track", "wbr", "basefont", "bgsound", "command", "frame", "image", "isindex", "nextid", "spacer"}
+_ASCII_SPACES = "\x20\x0a\x09\x0c\x0d"
+
+
+class _HtmlBuilder(html.parser.HTMLParser):
+    def __init__(self, soup):
+        super().__init__(convert_charrefs=False)
+        self.soup = soup
+        self.stack = [soup]
+        self.data = []
+        self.already_closed = []
+
+    def run(self, markup):
+        try:
+            self.feed(markup)
+            self.close()
+        except AssertionError as e:
+            raise ModelError(f"html.parser refused the markup: {e}")
+        self._end_data()
+
+    def _end_data(self, cls=Text):
+        if self.data:
+            s = "".join(self.data)
+            self.data = []
+            if not any(getattr(t, "name", None) in ("pre", "textarea") for t in self.stack[1:]) \
+                    and all(c in _ASCII_SPACES for c in s):
+                s = "\n" if "\n" in s else " "
+            self.stack[-1]._adopt(cls(s))
+
+    def handle_starttag(self, tag, attrs, handle_empty_element=True):
+        self._end_data()
+        d = {}
+        for k, v in attrs:
+            d[k] = "" if v is None else v
+        t = Tag(tag, d, self.soup)
+        self.stack[-1]._adopt(t)
+        self.stack.append(t)
+        if tag in _EMPTY and handle_empty_element:
+            self._pop_to(tag)
+            self.already_closed.append(tag)
+
+    def handle_startendtag(self, tag, attrs):
+        self.handle_starttag(tag, attrs, handle_empty_element=False)
+        self._end_data()
+        self._pop_to(tag)
+
+    def handle_endtag(self, tag):
+        if tag in self.already_closed:
+            self.already_closed.remove(tag)
+        else:
+            self._end_data()
+            self._pop_to(tag)
+
+    def _pop_to(self, name):
+        if not any(getattr(t, "name", None) == name for t in self.stack[1:]):
+            return
+        while len(self.stack) > 1:
+            t = self.stack.pop()
+            if t.name == name:
+                break
+
+    def handle_data(self, data):
+        self.data.append(data)
+
+    def handle_charref(self, name):
+        m = re.match(r"[xX]([0-9a-fA-F]+)(.*)|([0-9]+)(.*)", name, re.S)
+        if not m:
+            self.handle_data(name)
+            return
+        n = int(m.group(1), 16) if m.group(1) is not None else int(m.group(3))
+        extra = m.group(2) if m.group(1) is not None else m.group(4)
+        if 0x80 <= n <= 0x9f or n == 0 or n > 0x10FFFF or 0xD800 <= n <= 0xDFFF:
+            raise ModelError(f"numeric character reference &#{name}; (windows-1252 / invalid range) is outside the model")
+        self.handle_data(chr(n))
+        if extra:
+            self.handle_data(extra)
+
+    def handle_entityref(self, name):
+        if name in html.entities.name2codepoint:
+            self.handle_data(chr(html.entities.name2codepoint[name]))
+        elif name + ";" in html.entities.html5:
+            self.handle_data(html.entities.html5[name + ";"])
+        else:
+            self.handle_data("&%s" % name)
+
+    def handle_comment(self, data):
+        self._end_data()
+        self.data.append(data)
+        self._end_data(Comment)
+
+    def handle_decl(self, decl):
+        self._end_data()
+        self.data.append(decl)
+        self._end_data(Declaration)
+
+    def unknown_decl(self, data):
+        self._end_data()
+        if data.upper().startswith("CDATA["):
+            self.data.append(data[len("CDATA["):])
+            self._end_data(CData)
+        else:
+            self.data.append(data)
+            self._end_data(Declaration)
+
+    def handle_pi(self, data):
+        self._end_data()
+        self.data.append(data)
+        self._end_data(Declaration)
+
+
+EXTERNAL_TYPES = {
+    "bs4.NavigableString": Text, "bs4.element.NavigableString": Text, "bs4.Tag": Tag, "bs4.element.Tag": Tag,
+    "bs4.BeautifulSoup": Soup, "bs4.element.Comment": Comment, "bs4.Comment": Comment, "bs4.element.CData": CData,
+    "bs4.CData": CData, "bs4.element.PreformattedString": (Comment, CData, Declaration),
+}
